@@ -95,8 +95,8 @@ class Oracle:
             if rec['raised'] is not None or proc.paused:  # (what play() returns is not laid down)
                 w.violate('c:play-not-playing', features(w, rec, ret=str(rec['ret']), terminated=True),
                           f"play() on the terminated but still paused process returned {rec['ret']}, paused afterwards={proc.paused}")
-            elif 'status_expected' in rec and rec.get('status_after') != rec['status_expected'] \
-                    and proc.state == ProcessState.FINISHED:
+            elif 'status_expected' in rec and proc.state == ProcessState.FINISHED \
+                    and rec.get('status_after') not in (rec['status_expected'], rec.get('status_alt', rec['status_expected'])):
                 w.violate('e:status-not-restored', features(w, rec, terminated=True),
                           f"status {rec.get('status_after')!r} after play, {rec['status_expected']!r} before pause")
         any_pause = False
@@ -111,7 +111,8 @@ class Oracle:
                     if rec.get('paused_after') and 'pause' not in rec['nested']:  # (what play() returns is not laid down)
                         w.violate('c:play-not-playing', features(w, rec, ret=str(rec['ret'])),
                                   f"play() returned {rec['ret']}, paused afterwards={rec.get('paused_after')}")
-                    if rec['paused'] and 'status_expected' in rec and rec.get('status_after') != rec['status_expected']:
+                    if rec['paused'] and 'status_expected' in rec and 'pause' not in rec['nested'] \
+                            and rec.get('status_after') not in (rec['status_expected'], rec.get('status_alt', rec['status_expected'])):
                         w.violate('e:status-not-restored', features(w, rec),
                                   f"status {rec.get('status_after')!r} after play, {rec['status_expected']!r} before pause")
         # (b) nothing of the user's program runs while the process reports paused
